@@ -48,7 +48,7 @@ def fault_point(name, pos, proc=None):
     if FAULT is not None and FAULT[0] == name and (
             (FAULT[1] == pos and FAULT[2] == n) or (FAULT[1] == pos + '+' and n >= FAULT[2])):
         # (every other listener fault is an exception that cannot even be turned into text: reporting it must not become a second fault)
-        exc = (UnprintableError if name.startswith('listener.') and n % 2 == 0 else ProgError)('X:%s' % key)
+        exc = (UnprintableError if (name.startswith('listener.') or name in ('step', 'callback')) and n % 2 == 0 else ProgError)('X:%s' % key)
         exc.proc_terminated = proc.has_terminated() if proc is not None and getattr(proc, '_state', None) is not None else None
         FIRED.append(exc)
         raise exc
